@@ -11,8 +11,8 @@ line=$(grep -m1 '^VERIF-BOUNDED:' "$out/test.log" | sed 's/^VERIF-BOUNDED: //')
 [ -z "$line" ] && line='{"cases":0,"fail":"harness did not run"}'
 jq -n --argjson r "$line" --arg tier "$tier" '{bounded: [{name: "rotation/reversal/size of switch paths on the real m functions", exhaustive_up_to: ("all label-class combinations for 2.." + ($r.max_hops_exhaustive|tostring) + " hops (boundary labels 1,127,128,16383,16384,65535 for <=3 hops)"), random_cases: $r.random_cases, cases: $r.cases, counted_as_proved: false, failure: ($r.fail // null)}]}' > "$result"
 if [ "$rc" != 0 ] || [ -n "$(echo "$line" | jq -r '.fail // empty')" ]; then
-  mkdir -p out/C12/replays
-  rp=out/C12/replays/bounded_C12.json
+  mkdir -p out/C12.bounded
+  rp=out/C12.bounded/replay.json
   jq -n --argjson r "$line" --arg log "$(tail -30 "$out/test.log")" '{property:"C12", obligation:"bounded/C12", what: $r.fail, input: $r.fail_path, verdict:"confirmed", go_test_output:$log, replay_cmd:"/verif/bounded/C12.sh quick /tmp/c12.json"}' > /verif/$rp
   echo "FAILED-OBLIGATION: bounded/C12 -- $(echo "$line" | jq -r '.fail') for $(echo "$line" | jq -r '.fail_path')"
   echo "VIOLATION property=C12 replay=/verif/$rp"
